@@ -46,6 +46,7 @@ def _is_empty_dict(e):
 class Canon(ast.NodeTransformer):
     def __init__(self):
         self.applied = {"K1": 0, "K2": 0, "K3": 0, "K4": 0, "K5": 0}
+        self.cur_fn = None
 
     # ---- statement lists
     def _block(self, body):
@@ -60,9 +61,22 @@ class Canon(ast.NodeTransformer):
         ``name``."""
         if not isinstance(loop, ast.For) or loop.orelse:
             return None
-        if len(loop.body) != 1:
+        if not loop.body:
             return None
-        st = loop.body[0]
+        # leading temporaries  t = EXPR  that live only inside this loop are
+        # substituted into what follows
+        temps = []
+        for pre in loop.body[:-1]:
+            if not (isinstance(pre, ast.Assign) and len(pre.targets) == 1
+                    and isinstance(pre.targets[0], ast.Name)
+                    and pre.targets[0].id != name):
+                return None
+            temps.append((pre.targets[0].id, pre.value))
+        if temps:
+            loop = self._subst_temps(loop, temps)
+            if loop is None:
+                return None
+        st = loop.body[-1]
         cond = None
         if isinstance(st, ast.If) and not st.orelse and len(st.body) == 1:
             cond = st.test
@@ -94,6 +108,64 @@ class Canon(ast.NodeTransformer):
                for n in ast.walk(loop)):
             return None
         return inner + (cond,)
+
+    def _subst_temps(self, loop, temps):
+        """Copy of the loop with only its last statement, the temporaries
+        substituted; None when that is not safe."""
+        fn = self.cur_fn
+        if fn is None:
+            return None
+        tnames = [t for t, _v in temps]
+        if len(set(tnames)) != len(tnames):
+            return None
+        target_names = _names(loop.target)
+        for t in tnames:
+            if t in target_names:
+                return None
+            inside_ids = {id(n) for n in ast.walk(loop)
+                          if isinstance(n, ast.Name) and n.id == t}
+            all_ids = {id(n) for n in ast.walk(fn)
+                       if isinstance(n, ast.Name) and n.id == t}
+            if inside_ids != all_ids:
+                return None
+            if t in {a.arg for a in fn.args.args + fn.args.kwonlyargs}:
+                return None
+        env = {}
+        last = _copy(loop.body[-1])
+
+        class Sub(ast.NodeTransformer):
+            def visit_Name(self, node):
+                if isinstance(node.ctx, ast.Load) and node.id in env:
+                    return _copy(env[node.id])
+                return node
+
+        for t, v in temps:
+            v2 = Sub().visit(_copy(v))
+            # how often is it used afterwards?
+            rest = [x for (t2, x) in temps[tnames.index(t) + 1:]] + [last]
+            uses = sum(1 for r in rest for n in ast.walk(r)
+                       if isinstance(n, ast.Name) and n.id == t
+                       and isinstance(n.ctx, ast.Load))
+            if uses > 1 and not _pure_ext(v2):
+                return None
+            if any(isinstance(n, ast.Name) and n.id == t and isinstance(
+                    n.ctx, ast.Store) for n in ast.walk(last)):
+                return None
+            env[t] = v2
+        last = Sub().visit(last)
+        new = ast.For(target=loop.target, iter=loop.iter, body=[last],
+                      orelse=[], type_comment=None)
+        ast.copy_location(new, loop)
+        ast.fix_missing_locations(new)
+        return new
+
+    def visit_FunctionDef(self, node):
+        prev, self.cur_fn = self.cur_fn, node
+        self.generic_visit(node)
+        self.cur_fn = prev
+        return node
+
+    visit_AsyncFunctionDef = visit_FunctionDef
 
     def _multi_accum(self, loop, names):
         """[(name, kind, elt/key, value)] when the loop body is one
@@ -327,6 +399,29 @@ def _reiterable(e):
                 "items", "keys", "values") and not e.args:
             return _reiterable(f.value)
     return False
+
+
+_PURE_METHODS = {"lower", "upper", "strip", "lstrip", "rstrip", "get",
+                 "startswith", "endswith", "casefold", "split", "items",
+                 "keys", "values", "index", "count"}
+
+
+def _pure_ext(e):
+    for n in ast.walk(e):
+        if isinstance(n, ast.Call):
+            f = n.func
+            if isinstance(f, ast.Name) and f.id in (
+                    "set", "list", "dict", "tuple", "len", "str", "int",
+                    "float", "frozenset", "range", "sorted", "min", "max",
+                    "abs", "bool", "isinstance"):
+                continue
+            if isinstance(f, ast.Attribute) and f.attr in _PURE_METHODS:
+                continue
+            return False
+        if isinstance(n, (ast.Await, ast.Yield, ast.YieldFrom,
+                          ast.NamedExpr)):
+            return False
+    return True
 
 
 def _pure(e):
